@@ -9,7 +9,7 @@
    An environment maps names to references  [loc, path]  (path: selectors into the stored value), so that
    Referenz parameters alias the caller's variable, element or field; env = [l : locals, g : globals].
    "unspec": the program reached a corner DDP leaves open - the observation is compared only up to there. *)
-EXTENDS DDPValues, TLC
+EXTENDS DDPValues, Precedence, TLC
 
 CONSTANT DecSep          \* code point of the decimal separator printed by the runtime (locale!)
 
@@ -323,6 +323,7 @@ Eval(P, e, env, st) ==
       [] e.k = "new" -> EvalK13(P, e, env, st)
       [] e.k = "call" -> EvalK14(P, e, env, st)
       [] e.k = "lvr" -> EvalK15(P, e, env, st)
+      [] e.k = "chain" -> Eval(P, Tree(e.items), env, st)      \* an unparenthesised operator chain means its precedence tree
 
 (* reference denoted by an assignable: [ref, st]; an out-of-range index is a Laufzeitfehler *)
 RECURSIVE EvalLvK1(_,_,_,_), EvalLvK2(_,_,_,_), EvalLvK3(_,_,_,_)
